@@ -221,6 +221,29 @@ pub fn ctor(r: &mut Rep, ri: u16, pbase: u64) {
                 r.viol("C20|RecursivePageTable::new|verdict-does-not-follow-the-root-register-across-a-switch", &format!("ctorswitch {} {:#x} straight first_own={}", ri, pbase, first_own), &format!("{:?} expected {:?} (1 = Ok, 2 = NotActive)", res, exp));
             }
         }
+        // the memory seen through the recursive address changes with the root: after the switch the slot read through (R,R,R,R)
+        // is the new root's own recursive entry, so the constructor succeeds before and after (the root write is a memory barrier)
+        {
+            cpu().cr[3] = l4_phys;
+            fill_table_at(l4, ri as usize, l4_phys | 3);
+            cpu().cr3_write_store = l4 + 8 * ri as u64;
+            let res = run_fault(|| {
+                let code = |x: Result<RecursivePageTable, InvalidPageTable>| match x { Ok(_) => 1u8, Err(InvalidPageTable::NotActive) => 2, Err(InvalidPageTable::NotRecursive) => 3 };
+                let a = code(RecursivePageTable::new(unsafe { &mut *(l4 as *mut PageTable) }));
+                let (_, fl) = Cr3::read();
+                unsafe { Cr3::write(other, fl) };
+                let b = code(RecursivePageTable::new(unsafe { &mut *(l4 as *mut PageTable) }));
+                unsafe { Cr3::write(own, fl) };
+                let c = code(RecursivePageTable::new(unsafe { &mut *(l4 as *mut PageTable) }));
+                (a, b, c)
+            });
+            cpu().cr3_write_store = 0;
+            r.ev(true);
+            if res != Ok((1, 1, 1)) {
+                r.viol("C20|RecursivePageTable::new|reads-the-table-as-it-was-before-a-root-switch", &format!("ctorswitch {} {:#x} window-follows-root", ri, pbase), &format!("{:?} expected (1, 1, 1) (1 = Ok, 2 = NotActive)", res));
+            }
+            fill_table_at(l4, ri as usize, l4_phys | 3);
+        }
         cpu().cr[3] = l4_phys;
     }
     // the index it then uses: the first window address dereferenced for a page with p4 = 3 must be (R,R,R,3)
